@@ -498,6 +498,16 @@ func runC19(c *core.Ctx) {
 			compareEntries(c, "keycert-short-payload-with-trailing-bytes", in, gen.Shape{"sig": s, "crypto": cr, "declared": short}, []entryOut{a, b})
 			return
 		}
+		// each value is serialised twice, the second time after the caller has overwritten what the
+		// first call handed out: both serialisations are part of what the entry points must agree on
+		twice := func(get func() []byte) []byte {
+			b1 := get()
+			keep := append([]byte{}, b1...)
+			for j := range b1 {
+				b1[j] ^= 0x3C
+			}
+			return append(keep, get()...)
+		}
 		mk := func(name string, f func() ([]byte, error)) entryOut {
 			var b []byte
 			var err error
@@ -509,7 +519,7 @@ func runC19(c *core.Ctx) {
 			if err != nil {
 				return nil, err
 			}
-			return k.Bytes(), nil
+			return twice(k.Bytes), nil
 		})
 		b := mk("key_certificate.KeyCertificateFromCertificate(ReadCertificate)", func() ([]byte, error) {
 			ct, _, err := certificate.ReadCertificate(in)
@@ -520,7 +530,7 @@ func runC19(c *core.Ctx) {
 			if err != nil {
 				return nil, err
 			}
-			return k.Bytes(), nil
+			return twice(k.Bytes), nil
 		})
 		d := mk("certificate.CertificateBuilder.WithKeyTypes", func() ([]byte, error) {
 			bd := certificate.NewCertificateBuilder()
@@ -531,7 +541,7 @@ func runC19(c *core.Ctx) {
 			if err != nil {
 				return nil, err
 			}
-			return ct.Bytes(), nil
+			return twice(ct.Bytes), nil
 		})
 		e := mk("certificate.NewCertificateWithType(KEY, BuildKeyTypePayload)", func() ([]byte, error) {
 			p, err := certificate.BuildKeyTypePayload(s, cr)
@@ -542,7 +552,7 @@ func runC19(c *core.Ctx) {
 			if err != nil {
 				return nil, err
 			}
-			return ct.Bytes(), nil
+			return twice(ct.Bytes), nil
 		})
 		// the four type-agnostic ways must agree for every code pair
 		compareEntries(c, "keycert-bytes-vs-certificate-vs-builder-vs-payload", in, gen.Shape{"sig": s, "crypto": cr}, []entryOut{a, b, d, e})
@@ -553,7 +563,7 @@ func runC19(c *core.Ctx) {
 			if err != nil {
 				return nil, err
 			}
-			return k.Bytes(), nil
+			return twice(k.Bytes), nil
 		})
 		c.Eval(1)
 		if w.ok {
